@@ -240,7 +240,7 @@ Proof.
 Qed.
 
 (** ** values after a finite solve *)
-Definition quiet (o : op) : bool := match o with Solve _ | NewLeafP => false | _ => true end.
+Definition quiet (o : op) : bool := match o with Solve _ => false | _ => true end.
 
 Lemma frame_good_leaves st st' : frame st st' -> lpv st' = lpv st.
 Proof. intros (H & _). exact H. Qed.
@@ -357,6 +357,30 @@ Proof.
     rewrite (expr_compute_ext st _ d (proj1 S)). exact Hq.
 Qed.
 
+Lemma good_new_leafP m st y : good m st y -> good m (new_leafP st) y.
+Proof.
+  intros [Cy Ce].
+  assert (S : samek st (new_leafP st)).
+  { split; [|intro r; reflexivity]. split; intro k; [|reflexivity].
+    unfold leafP, new_leafP; cbn [lpv]. destruct (Nat.lt_ge_cases k (length (lpv st))) as [H|H].
+    - rewrite nth_error_app1 by exact H. reflexivity.
+    - assert (H1 : nth_error (lpv st) k = None) by (apply nth_error_None; exact H). rewrite H1.
+      rewrite nth_error_app2 by exact H. destruct (k - length (lpv st)) as [|j]; cbn; [reflexivity|].
+      destruct j; reflexivity. }
+  split.
+  - intros o v Ho Hc. rewrite (pure_obj_samek m st _ _ S). apply (Cy o v Ho Hc).
+  - intros o e Ho Hin. pose proof (Ce o e Ho Hin) as C. destruct e as [id|r]; cbn [coh_eh] in *; [exact I|].
+    intros o2 d v Ho2 Hk Hc. destruct (C o2 d v Ho2 Hk Hc) as (q & -> & Hq). exists q. split; [reflexivity|].
+    rewrite (expr_compute_ext st _ d (proj1 S)). exact Hq.
+Qed.
+
+(** the object is not the empty combination (whose null vector follows the class counter: F-C02b) *)
+Definition nonempty (st : est) (y : nat) : Prop := forall oy, get_obj st y = Some oy -> okind_of oy <> KPoint [].
+Lemma nonempty_back st st' y :
+  (forall r o', get_obj st' r = Some o' -> exists o, get_obj st r = Some o /\ okind_of o = okind_of o') ->
+  nonempty st y -> nonempty st' y.
+Proof. intros B N oy Hoy. destruct (B y oy Hoy) as (o & Ho & Hk). rewrite <- Hk. apply (N o Ho). Qed.
+
 (** every reference inside a stored constraint / LMI points to an existing derived expression *)
 Definition store_ok (st : est) : Prop :=
   forall r o e, get_obj st r = Some o -> In e (refs_of (okind_of o)) -> eh_ok st e.
@@ -394,32 +418,36 @@ Qed.
 
 (** one quiet step keeps a coherent object coherent *)
 Lemma step_good m s o y :
-  quiet o = true -> store_ok (es s) -> m = length (lpv (es s)) -> y < length (objs (es s)) ->
+  quiet o = true -> store_ok (es s) -> nonempty (es s) y -> y < length (objs (es s)) ->
   good m (es s) y ->
   let s' := fst (step s o) in
-  good m (es s') y /\ store_ok (es s') /\ m = length (lpv (es s')) /\ y < length (objs (es s')).
+  good m (es s') y /\ store_ok (es s') /\ nonempty (es s') y /\ y < length (objs (es s')).
 Proof.
   intros Q S Hm Hy G. cbv zeta. unfold step. destruct (valid_op s o) eqn:V; [|auto].
   assert (Hr : forall o0 e, get_obj (es s) y = Some o0 -> In e (refs_of (okind_of o0)) -> eh_ok (es s) e)
     by (intros; eapply S; eassumption).
+  assert (Nn : forall k, nonempty (new_obj (es s) k) y).
+  { intros k oy Hoy. rewrite get_obj_new_obj_old in Hoy by exact Hy. apply (Hm oy Hoy). }
   destruct o; try discriminate; cbn [step_valid fst es with_es]; auto.
+  - (* NewLeafP *) split; [apply good_new_leafP, G|]. split; [|auto].
+    eapply store_ok_le; [exact S| |apply le_st_new_leafP]. eauto.
   - (* NewLeafE *) split; [apply good_new_leafE, G|]. split; [|auto].
     eapply store_ok_le; [exact S| |apply le_st_new_leafE]. eauto.
   - (* MkPoint *) split; [apply good_new_obj; assumption|]. split; [apply store_ok_new_obj; [exact S|intros e []]|].
-    rewrite length_new_obj. split; [exact Hm|lia].
+    rewrite length_new_obj. split; [apply Nn|lia].
   - (* MkExpr *) split; [apply good_new_obj; assumption|]. split; [apply store_ok_new_obj; [exact S|intros e0 []]|].
-    rewrite length_new_obj. split; [exact Hm|lia].
+    rewrite length_new_obj. split; [apply Nn|lia].
   - (* MkCons *) cbn in V. split; [apply good_new_obj; assumption|]. split.
     + apply store_ok_new_obj; [exact S|]. intros e0 [<-|[]]. apply valid_ehb_ok, V.
-    + rewrite length_new_obj. split; [exact Hm|lia].
+    + rewrite length_new_obj. split; [apply Nn|lia].
   - (* MkLmi *) cbn in V. split; [apply good_new_obj; assumption|]. split.
     + apply store_ok_new_obj; [exact S|]. cbn [refs_of]. apply valid_rows_ok, V.
-    + rewrite length_new_obj. split; [exact Hm|lia].
+    + rewrite length_new_obj. split; [apply Nn|lia].
   - (* Eval *) destruct (eval_obj (es s) r) as [st1 x] eqn:H. cbn [fst es with_es].
     pose proof (eval_obj_frame _ _ _ _ H) as F. split.
-    + eapply eval_obj_good; [exact H|exact G|]. intros. exact Hm.
+    + eapply eval_obj_good; [exact H|exact G|]. intros -> o0 Ho0 Hk0 _. exfalso. apply (Hm o0 Ho0 Hk0).
     + split; [eapply store_ok_le; [exact S|apply frame_back, F|apply le_st_frame, F]|].
-      rewrite (frame_good_leaves _ _ F). split; [exact Hm|].
+      split; [eapply nonempty_back; [apply frame_back, F|exact Hm]|].
       destruct F as (_ & _ & F). destruct (nth_error (objs (es s)) y) as [oy|] eqn:Hoy.
       * specialize (F y). unfold get_obj in F. rewrite Hoy in F.
         destruct (nth_error (objs st1) y) eqn:E1; [|contradiction]. apply nth_error_Some. congruence.
@@ -427,9 +455,9 @@ Proof.
 Qed.
 
 Lemma run_good m : forall ops s y,
-  forallb quiet ops = true -> store_ok (es s) -> m = length (lpv (es s)) -> y < length (objs (es s)) ->
+  forallb quiet ops = true -> store_ok (es s) -> nonempty (es s) y -> y < length (objs (es s)) ->
   good m (es s) y ->
-  good m (es (fst (run s ops))) y /\ m = length (lpv (es (fst (run s ops)))).
+  good m (es (fst (run s ops))) y /\ nonempty (es (fst (run s ops))) y.
 Proof.
   induction ops as [|o ops IH]; intros s y Q S Hm Hy G; cbn [run]; [auto|].
   cbn [forallb] in Q. apply andb_true_iff in Q as [Q1 Q2].
